@@ -391,3 +391,148 @@ Proof.
     + rewrite lookup_singleton_ne in Hq by congruence. discriminate.
   - intros r n H. cbn in H. rewrite lookup_empty in H. discriminate.
 Qed.
+
+(* ---- addDRAResource / buildTaskDRAInfo: the constructor of TaskInfo.DRAResreq ---- *)
+
+Definition dmap_ok (m : dmap) : Prop :=
+  forall c d, m !! c = Some d -> in64 (d_count d) /\ 0 <= d_count d.
+Definition ereq_ok (rq : ereq) : Prop := in64 (e_count rq) /\ 0 <= e_count rq.
+(* what the apiserver guarantees for one DeviceRequest: an int64 count that is not negative *)
+Definition raw_ok (w : rawreq) : Prop := in64 (w_count w) /\ 0 <= w_count w.
+
+Lemma count_add_dra_map dst rq c :
+  count_of (add_dra_map dst rq !! c) =
+  if bool_decide (e_class rq = c) then sat_add (count_of (dst !! c)) (e_count rq) else count_of (dst !! c).
+Proof.
+  unfold add_dra_map. destruct (bool_decide (e_class rq = c)) eqn:E.
+  - apply bool_decide_eq_true in E. subst c. rewrite lookup_insert. cbn [count_of d_count].
+    destruct (dst !! e_class rq); reflexivity.
+  - apply bool_decide_eq_false in E. rewrite lookup_insert_ne by exact E. reflexivity.
+Qed.
+
+Lemma sat_add_min S c : 0 <= S -> in64 c -> 0 <= c -> sat_add (Z.min max64 S) c = Z.min max64 (S + c).
+Proof.
+  intros HS Hc Hc0. rewrite sat_add_spec; [|apply min_max64_in64; exact HS|exact Hc].
+  rewrite clamp64_nonneg_min by (unfold max64; lia). unfold max64. lia.
+Qed.
+
+Lemma sum_list_app l1 l2 : sum_list (l1 ++ l2) = sum_list l1 + sum_list l2.
+Proof. unfold sum_list. induction l1 as [|x l1 IH]; cbn [app fold_right]; lia. Qed.
+
+(* the saturation specification for the accumulation that builds a task's request *)
+Theorem add_map_all_count_spec rqs : forall dst c S,
+  Forall ereq_ok rqs -> 0 <= S -> count_of (dst !! c) = Z.min max64 S ->
+  count_of (add_map_all dst rqs !! c) = Z.min max64 (S + sum_list (class_counts c rqs)) /\
+  0 <= S + sum_list (class_counts c rqs).
+Proof.
+  induction rqs as [|rq rqs IH]; intros dst c S Hok HS Hdst; cbn [add_map_all fold_left class_counts flat_map].
+  - cbn. rewrite Z.add_0_r. split; [exact Hdst|exact HS].
+  - fold (add_map_all (add_dra_map dst rq) rqs). fold (class_counts c rqs).
+    inversion Hok as [|x xs [Hx1 Hx2] Hxs]; subst.
+    rewrite sum_list_app.
+    destruct (bool_decide (e_class rq = c)) eqn:E.
+    + destruct (IH (add_dra_map dst rq) c (S + e_count rq) Hxs ltac:(lia)) as [E1 E2].
+      { rewrite count_add_dra_map, E, Hdst. apply sat_add_min; assumption. }
+      cbn [sum_list fold_right]. rewrite Z.add_0_r.
+      replace (S + (e_count rq + sum_list (class_counts c rqs))) with (S + e_count rq + sum_list (class_counts c rqs)) by lia.
+      split; assumption.
+    + destruct (IH (add_dra_map dst rq) c S Hxs HS) as [E1 E2].
+      { rewrite count_add_dra_map, E. exact Hdst. }
+      cbn [sum_list fold_right]. split; [exact E1|exact E2].
+Qed.
+
+Corollary add_map_all_from_empty rqs c : Forall ereq_ok rqs ->
+  count_of (add_map_all ∅ rqs !! c) = Z.min max64 (sum_list (class_counts c rqs)) /\
+  0 <= count_of (add_map_all ∅ rqs !! c).
+Proof.
+  intros H. destruct (add_map_all_count_spec rqs ∅ c 0 H ltac:(lia)) as [E1 E2].
+  { rewrite lookup_empty. reflexivity. }
+  rewrite Z.add_0_l in *. split; [exact E1|]. rewrite E1. unfold max64. lia.
+Qed.
+
+Lemma add_dra_map_ok dst rq : dmap_ok dst -> ereq_ok rq -> dmap_ok (add_dra_map dst rq).
+Proof.
+  intros Hd [H1 H2] c d Hc. unfold add_dra_map in Hc.
+  destruct (decide (e_class rq = c)) as [<-|Hne].
+  - rewrite lookup_insert in Hc. inversion Hc; subst; clear Hc. cbn [d_count].
+    assert (Hcur : in64 (d_count (default (mkD 0 ∅) (dst !! e_class rq))) /\ 0 <= d_count (default (mkD 0 ∅) (dst !! e_class rq))).
+    { destruct (dst !! e_class rq) as [d0|] eqn:E; cbn [default]; [eapply Hd; exact E|].
+      cbn. unfold in64, min64, max64. lia. }
+    destruct Hcur as [Hc1 Hc2]. split; [apply sat_add_range|apply sat_add_nonneg]; assumption.
+  - rewrite lookup_insert_ne in Hc by exact Hne. eapply Hd. exact Hc.
+Qed.
+
+Lemma add_all_ok rqs : forall st st',
+  Forall ereq_ok rqs -> dmap_ok (s_map st) -> add_all (Some st) rqs = Some st' -> dmap_ok (s_map st').
+Proof.
+  induction rqs as [|rq rqs IH]; intros st st' Hok Hst H; cbn [add_all fold_left] in H.
+  - inversion H; subst. exact Hst.
+  - inversion Hok as [|x xs Hx Hxs]; subst.
+    destruct (add_dra_resource st rq) as [st1|] eqn:E.
+    + apply (IH st1 st' Hxs); [|exact H].
+      unfold add_dra_resource in E.
+      destruct (negb _ && _); [discriminate|]. inversion E; subst. cbn [s_map].
+      apply add_dra_map_ok; assumption.
+    + exfalso. clear -H. induction rqs as [|r rs IHr]; cbn [fold_left] in H; [discriminate|auto].
+Qed.
+
+Lemma add_all_map rqs : forall st st',
+  add_all (Some st) rqs = Some st' -> s_map st' = add_map_all (s_map st) rqs.
+Proof.
+  induction rqs as [|rq rqs IH]; intros st st' H; cbn [add_all fold_left] in H.
+  - inversion H; subst. reflexivity.
+  - destruct (add_dra_resource st rq) as [st1|] eqn:E.
+    + rewrite (IH st1 st' H). unfold add_dra_resource in E.
+      destruct (negb _ && _); [discriminate|]. inversion E; subst. reflexivity.
+    + exfalso. clear -H. induction rqs as [|r rs IHr]; cbn [fold_left] in H; [discriminate|auto].
+Qed.
+
+Lemma effective_ok ws : Forall raw_ok ws -> Forall ereq_ok (effective_all ws).
+Proof.
+  intros H. unfold effective_all. induction H as [|w ws [H1 H2] _ IH]; cbn [flat_map]; [constructor|].
+  apply Forall_app. split; [|exact IH]. unfold effective.
+  destruct (w_kind w =? 0); [|constructor]. constructor; [|constructor].
+  unfold ereq_ok. cbn [e_count]. destruct (w_count w =? 0); [unfold in64, min64, max64; lia|split; assumption].
+Qed.
+
+Definition claims_ok (claims : gmap positive (list rawreq)) : Prop :=
+  forall c ws, claims !! c = Some ws -> Forall raw_ok ws.
+
+(* reachable-state invariant: whatever buildTaskDRAInfo returns for a pod whose DeviceRequests each
+   carry a non-negative int64 count has non-negative int64 counts per device class — in the aggregated
+   request (TaskInfo.DRAResreq) and in every per-claim request *)
+Lemma build_loop_ok claims refs : forall result per r per',
+  claims_ok claims -> dmap_ok (s_map result) -> (forall c m, per !! c = Some m -> dmap_ok m) ->
+  build_loop claims refs result per = BuildOk (Some (r, per')) ->
+  dmap_ok r /\ forall c m, per' !! c = Some m -> dmap_ok m.
+Proof.
+  induction refs as [|c refs IH]; intros result per r per' Hcl Hres Hper H; cbn [build_loop] in H.
+  - destruct (bool_decide (per = ∅)); [discriminate|]. inversion H; subst. split; assumption.
+  - destruct (bool_decide (is_Some (per !! c))); [eapply IH; eassumption|].
+    destruct (claims !! c) as [ws|] eqn:Ec; [|discriminate].
+    pose proof (effective_ok ws (Hcl c ws Ec)) as Heff.
+    destruct (add_all (Some (mkS ∅ ∅)) (effective_all ws)) as [pc|] eqn:E1; [|discriminate].
+    destruct (add_all (Some result) (effective_all ws)) as [result'|] eqn:E2; [|discriminate].
+    eapply IH; [exact Hcl| | |exact H].
+    + eapply add_all_ok; [exact Heff|exact Hres|exact E2].
+    + intros c0 m Hm. destruct (bool_decide (s_map pc = ∅)); [eapply Hper; exact Hm|].
+      destruct (decide (c = c0)) as [<-|Hne].
+      * rewrite lookup_insert in Hm. inversion Hm; subst.
+        eapply add_all_ok; [exact Heff| |exact E1]. intros ? ? Hx. cbn in Hx. rewrite lookup_empty in Hx. discriminate.
+      * rewrite lookup_insert_ne in Hm by exact Hne. eapply Hper. exact Hm.
+Qed.
+
+Theorem build_task_dra_counts_ok claims refs r per :
+  claims_ok claims -> build_task_dra claims refs = BuildOk (Some (r, per)) ->
+  dmap_ok r /\ forall c m, per !! c = Some m -> dmap_ok m.
+Proof.
+  intros Hcl H. eapply (build_loop_ok claims refs (mkS ∅ ∅) ∅); [exact Hcl| | |exact H].
+  - intros ? ? Hx. cbn in Hx. rewrite lookup_empty in Hx. discriminate.
+  - intros ? ? Hx. rewrite lookup_empty in Hx. discriminate.
+Qed.
+
+(* ... which is what job_ok asks of the tasks *)
+Theorem job_ok_of_dmap_ok j :
+  (forall t rq, In t (j_tasks j) -> t_req t = Some rq -> dmap_ok rq) ->
+  (forall r n, j_tma j !! r = Some n -> in64 n) -> job_ok j.
+Proof. intros H1 H2. split; [|exact H2]. intros t rq c q Hin Hrq Hq. exact (H1 t rq Hin Hrq c q Hq). Qed.
